@@ -7,6 +7,7 @@
 
 /* OpenSSL's allocator: the k-th allocation made while `armed` fails (walks every error path of blinded_modexp) */
 #include <openssl/crypto.h>
+#include <openssl/err.h>
 static long o_count, o_failat;
 static int o_armed;
 static void *
@@ -162,6 +163,24 @@ main(void)
 			rc = (alen == CRYPTO_DH_PUBLEN) ? crypto_dh_sanitycheck(a) : 99;
 			printf("%d | %d", rc, rc);
 			free(a);
+		} else if (hc_is("staleerr", 1)) {
+			/*
+			 * Environment: earlier, unrelated OpenSSL failures of this thread left entries in the
+			 * error queue (nobody is obliged to clear it).  The DH operations that follow must not care.
+			 */
+			int n = atoi(hc_tok[1]), i;
+
+			for (i = 0; i < n && i < 8; i++) {
+				BIGNUM * z = BN_new(), * r = BN_new();
+				BN_CTX * cx = BN_CTX_new();
+
+				if (z != NULL && r != NULL && cx != NULL) {
+					BN_zero(z);
+					(void)BN_mod_inverse(r, z, z, cx);	/* fails: pushes an error */
+				}
+				BN_free(z); BN_free(r); BN_CTX_free(cx);
+			}
+			printf("env");
 		} else if (hc_is("g14", 0)) {
 			/* independent copy of the RFC 3526 prime: OpenSSL's */
 			BIGNUM * p = BN_get_rfc3526_prime_2048(NULL);
